@@ -36,6 +36,7 @@ FIX={ 'fbd346f':(['C07'],'revert: zero-length datagram guard in runProtocol'),
  '9704e8c':(['C07'],'revert: ping service ignores packets from a ping service'),
  'a90d3d2':(['C17'],'revert: runProtocol cancels its session context on return'),
  'e505b94':(['C07'],'revert: UDP listener session signals closure to the shared listener goroutine'),
+ 'c84d283':(['C07'],'revert: relay refuses payloads larger than the MTU'),
 }
 for c,(props,what) in FIX.items():
     out=subprocess.check_output(['git','-C',REPO,'show','--format=',c,'--','.',':!*_test.go'])
